@@ -345,7 +345,7 @@ def check_mutated(shape_name, cls, shift, res):
 OFF_SHAPES = {"rect-offcentre": ["rect", 4.0, 2.0, 1.25, 0.0, 0.0], "rect-offcentre-rotated": ["rect", 3.0, 1.0, -0.5, 0.75, 0.4], "circle-offcentre": ["circle", 1.0, 0.5, -0.25],
               "poly-offcentre": ["poly", [[0.0, -1.0], [4.0, -1.0], [5.0, 0.0], [4.0, 1.0], [0.0, 1.0]]]}
 MOVES = [((0.0, 0.0), 0.0), ((3.0, -1.5), 0.0), ((0.0, 0.0), 0.7), ((2.0, 1.0), -2.5), ((0.0, 5.0), math.pi / 2), ((-4.0, 0.0), 1e-3)]
-USES = ["none", "touch-shape-caches", "query-all-times", "touch+query"]
+USES = ["none", "touch-shape-caches", "query-all-times", "touch+query", "twin-with-copied-trajectory"]
 
 
 def _move_state(st, tr, a):
@@ -392,9 +392,33 @@ def check_reached(role, shape_name, res):
                         if "query" in use:
                             for t in range(0, 6):
                                 o.occupancy_at_time(t)
+                        twin = None
+                        if use.startswith("twin") and getattr(o, "prediction", None) is not None:
+                            # a second obstacle whose trajectory is a shallow copy of this one's; both are queried, then only one is moved
+                            import copy as _copy
+                            from commonroad.prediction.prediction import TrajectoryPrediction
+                            from commonroad.scenario.obstacle import DynamicObstacle
+                            twin = DynamicObstacle(99, o.obstacle_type, spec.mk_shape(sh), spec.mk_state(base["initial_state"]),
+                                                   TrajectoryPrediction(_copy.copy(o.prediction.trajectory), spec.mk_shape(sh)))
+                            for t in range(0, 6):
+                                o.occupancy_at_time(t); o.state_at_time(t); twin.occupancy_at_time(t); twin.state_at_time(t)
                         if mi:
                             o.translate_rotate(np.array(tr), a)
                         fresh = spec.mk_obstacle(now)
+                        if twin is not None:
+                            still = spec.mk_obstacle(base)
+                            for who, live_, ref_ in (("moved", o, fresh), ("twin", twin, still)):
+                                for t in range(0, 6):
+                                    ls, rs = live_.state_at_time(t), ref_.state_at_time(t)
+                                    if (ls is None) != (rs is None) or (ls is not None and (abs(float(ls.position[0]) - float(rs.position[0])) > 1e-9 or abs(float(ls.position[1]) - float(rs.position[1])) > 1e-9)):
+                                        res.violation(f"C04|{tag}|{who}:state_at_time-differs-from-freshly-built-obstacle",
+                                                      f"{case} t={t}: {None if ls is None else list(ls.position)} vs {None if rs is None else list(rs.position)}", dict(case, t=t))
+                                        break
+                            g2 = [None if twin.occupancy_at_time(t) is None else snap.shape(twin.occupancy_at_time(t).shape) for t in range(0, 6)]
+                            e2 = [None if still.occupancy_at_time(t) is None else snap.shape(still.occupancy_at_time(t).shape) for t in range(0, 6)]
+                            d2 = next(iter(snap.diff(e2, g2, tol_point=TOL, tol_real=TOL, angle_mod=True, tol_angle=TOL)), None)
+                            if d2:
+                                res.violation(f"C04|{tag}|twin:differs-from-freshly-built-obstacle", f"{case}: {d2}", case)
                         for t in range(0, 6):
                             g, e = o.occupancy_at_time(t), fresh.occupancy_at_time(t)
                             gs, es = (None if g is None else snap.shape(g.shape)), (None if e is None else snap.shape(e.shape))
@@ -661,7 +685,8 @@ def run_unit(unit, tier):
             lengths = [1, 2, 4] if role in ("dynamic-traj", "dynamic-set", "phantom") else [0]
             for n in lengths:
                 for shift in range(len(POSES)):
-                    for gap in ((0, 1) if role in ("dynamic-traj", "dynamic-set") else (0,)):
+                    # gap -1: the prediction starts AT the obstacle's initial time step (and says something else there): the initial state decides
+                    for gap in ((0, 1, -1) if role in ("dynamic-traj", "dynamic-set") else (0,)):
                         osp, _ = obstacle_spec(role, sn, cls, t0, n, shift, gap)
                         check_exact(osp, tag, res)
                         res.states += 1
@@ -686,6 +711,14 @@ def run_unit(unit, tier):
                 for shift in range(len(POSES)):
                     check_exact(obstacle_spec_iv(unit["role"], layout, t0, shift), f"{unit['role']}|interval-steps:{layout}|-|exact", res)
                     res.states += 1
+                    if unit["role"] == "dynamic-set":
+                        # the first occupancy interval also contains the obstacle's initial time step
+                        osp = obstacle_spec_iv(unit["role"], layout, t0, shift)
+                        osp["prediction"]["t0"] = t0
+                        for o_ in osp["prediction"]["occ"]:
+                            o_["t"] = (o_["t"] - 1) if not isinstance(o_["t"], list) else ["iv", o_["t"][1] - 1, o_["t"][2] - 1]
+                        check_exact(osp, f"{unit['role']}|interval-steps:{layout}|-|covers-initial-step", res)
+                        res.states += 1
         res.sample({"k": "exact-iv", "role": unit["role"], "layouts": sorted(IV_LAYOUTS)}, 1)
     elif k == "mutated":
         for cls in ("KSState", "PMState", "CustomState"):
